@@ -250,18 +250,26 @@ def run_c20(case):
         async def acquire(self):
             r = await super().acquire()
             key = next((k for k, v in hlp.GLOBAL_RETRY_SEMAPHORES.items() if v is self), '?')
-            c = CUR.get(asyncio.current_task(), -1)
+            c = who()
             log.append(('acquired', key, c))
             ACQ.add(c)
             return r
 
         def release(self):
             key = next((k for k, v in hlp.GLOBAL_RETRY_SEMAPHORES.items() if v is self), '?')
-            c = CUR.get(asyncio.current_task(), -1)
+            c = who()
             REL.add(c)
             super().release()
 
     CUR, ACQ, REL = {}, set(), set()
+    import contextvars
+    CURV = contextvars.ContextVar('verif_c20_caller', default=-1)
+
+    def who():
+        # the caller on whose behalf the current task works: the caller's own task, or a helper task the caller created
+        # (a task inherits a copy of its creator's context) - an acquisition made through a helper task is the caller's
+        c = CUR.get(asyncio.current_task())
+        return CURV.get() if c is None else c
     hlp.GLOBAL_RETRY_SEMAPHORES.clear()
     if hasattr(hlp, 'GLOBAL_RETRY_SEMAPHORE_LOOPS'):
         hlp.GLOBAL_RETRY_SEMAPHORE_LOOPS.clear()
@@ -299,6 +307,7 @@ def run_c20(case):
             async def call(c, spec):
                 await asyncio.sleep(spec['start'])
                 CUR[asyncio.current_task()] = c
+                CURV.set(c)
                 owner = owners[spec['owner']]
                 key = _semkey(hlp, getattr(work, '__wrapped__', work), case['name'], case['scope'], (owner, c, spec))
                 KEY[c] = key
